@@ -114,21 +114,26 @@ Record variant := mkVariant { v_atomic : bool; v_refresh : bool; v_fresh : bool 
        if isinstance(obj, Collection):
            if rec_obj_remover(obj, child): break
    return None            <- also after the break: a hit two levels down is NOT propagated *)
+Definition rm_at (s : state) (p x : nat) : state :=
+  refresh (set_children s p (remove_first x (children (get s p)))) p.
+
+(* the loop over the children of p; `rec` is the recursive call *)
+Fixpoint rm_scan (rec : state -> nat -> state * bool) (p x : nat) (l : list nat) (s : state)
+  {struct l} : state * bool :=
+  match l with
+  | [] => (s, false)
+  | o :: rest =>
+    if Nat.eqb o x then (rm_at s p x, true)
+    else if is_coll s o then
+      let '(s1, r) := rec s o in
+      if r then (s1, false) else rm_scan rec p x rest s1
+    else rm_scan rec p x rest s
+  end.
+
 Fixpoint rec_rm (fuel : nat) (s : state) (p x : nat) {struct fuel} : state * bool :=
   match fuel with
   | 0 => (s, false)
-  | S f =>
-    (fix scan (l : list nat) (s : state) {struct l} : state * bool :=
-       match l with
-       | [] => (s, false)
-       | o :: rest =>
-         if Nat.eqb o x then
-           (refresh (set_children s p (remove_first x (children (get s p)))) p, true)
-         else if is_coll s o then
-           let '(s1, r) := rec_rm f s o x in
-           if r then (s1, false) else scan rest s1
-         else scan rest s
-       end) (children (get s p)) s
+  | S f => rm_scan (fun s o => rec_rm f s o x) p x (children (get s p)) s
   end.
 
 (* ---------------------------------------------------------------- BaseCollection.remove
